@@ -197,14 +197,19 @@ lib = shared_library('tlib', 'l.c')
 ct = custom_target('tct', output: 'tct.txt', command: ['touch', '@OUTPUT@'])
 e = environment({'ZED': 'z z', 'ABC': '1'})
 e.set('SETV', 'a', 'b', separator: ';')
-test('t1', dump, args: ['--dump=%(d)s/t1.dump', '--env=ZED', '--env=ABC', '--env=SETV', 'plain', 'two words', files('main.c'), ct, exe], env: e, suite: ['sa', 'sb'], depends: [lib])
+subdir('l2')
+test('t1', dump, args: ['--dump=%(d)s/t1.dump', '--env=ZED', '--env=ABC', '--env=SETV', '--env=LD_LIBRARY_PATH', 'plain', 'two words', files('main.c'), ct, exe], env: e, suite: ['sa', 'sb'], depends: [lib])
+test('t5', dump, args: ['--dump=%(d)s/t5.dump', '--env=ZED', '--env=LD_LIBRARY_PATH'], env: e, depends: [lib2], suite: 'sd')
 test('t2', dump, args: ['--dump=%(d)s/t2.dump', '--env=K'], env: ['K=v=w'], suite: 'sb', is_parallel: false, timeout: 12, priority: 5, workdir: meson.current_source_dir())
 test('t3', exe, suite: 'sc', should_fail: false)
 test('t4', dump, args: ['--dump=%(d)s/t4.dump', '--tap'], protocol: 'tap')
-benchmark('b1', dump, args: ['--dump=%(d)s/b1.dump', 'bench arg'], env: {'BV': '1'})
+benchmark('b1', dump, args: ['--dump=%(d)s/b1.dump', '--env=BV', 'bench arg'], env: {'BV': '1'})
+benchmark('b2', dump, args: ['--dump=%(d)s/b2.dump', '--env=ZED', '--env=LD_LIBRARY_PATH'], env: e, depends: [lib3])
 subproject('tsp')
 ''',
     'main.c': 'int main(void) { return 0; }\n', 'l.c': 'int l(void) { return 0; }\n',
+    'l2/meson.build': "lib2 = shared_library('tlib2', 'l2.c')\nsubdir('l3')\n", 'l2/l2.c': 'int l2(void) { return 0; }\n',
+    'l2/l3/meson.build': "lib3 = shared_library('tlib3', 'l3.c')\n", 'l2/l3/l3.c': 'int l3(void) { return 0; }\n',
     'subprojects/tsp/meson.build': "project('tsp')\ndump = find_program('%(dump)s')\ntest('st1', dump, args: ['--dump=%(d)s/st1.dump', 'sub'], suite: 'sa')\n",
 }
 
@@ -278,6 +283,8 @@ def check_tests(job):
             v.append(('C15:tests:exe', 'test %s: intro cmd[0] = %r' % (t['name'], t['cmd'][0])))
         for k, val in envv.items():
             n += 1
+            if val is None and k not in t['env']:
+                continue
             if t['env'].get(k) != val:
                 v.append(('C15:tests:env', 'test %s: %s=%r at run time, intro-tests.json env says %r' % (t['name'], k, val, t['env'].get(k))))
     # suites: `meson test --list --suite S` must list exactly the tests whose intro suite contains S
@@ -289,7 +296,7 @@ def check_tests(job):
                 return True
         return False
     # ground truth from the build definition generated above
-    ground = {'t1': ('tp', ['sa', 'sb']), 't2': ('tp', ['sb']), 't3': ('tp', ['sc']), 't4': ('tp', []), 'st1': ('tsp', ['sa'])}
+    ground = {'t1': ('tp', ['sa', 'sb']), 't2': ('tp', ['sb']), 't3': ('tp', ['sc']), 't4': ('tp', []), 't5': ('tp', ['sd']), 'st1': ('tsp', ['sa'])}
 
     def truth(sel):
         out = []
@@ -297,7 +304,7 @@ def check_tests(job):
             if sel == proj or sel in sus or any(sel == '%s:%s' % (proj, su) for su in sus):
                 out.append(name)
         return sorted(out)
-    for s in ['sa', 'sb', 'sc', 'tp', 'tsp', 'tp:sa', 'tp:sb', 'tsp:sa', 'tp:sc']:
+    for s in ['sa', 'sb', 'sc', 'sd', 'tp', 'tsp', 'tp:sa', 'tp:sb', 'tsp:sa', 'tp:sc']:
         r = mp.run_meson(['test', '-C', bdir, '--no-rebuild', '--list', '--suite', s], root, env=env)
         listed = sorted(l.split(' / ')[-1].strip() if ' / ' in l else l.split(':')[-1].strip() for l in r.out.splitlines() if l.strip() and not l.startswith(('ninja', 'Found')))
         from_intro = sorted(t['name'] for t in tests if sel_matches(s, t))
